@@ -60,6 +60,16 @@ theorem feed_chars (lk : Lookup) (pieces : List Str) (h : H) (k : List Ev) :
   | nil => rfl
   | cons p ps ih => simp only [List.map_cons, List.cons_append, feed, ih, List.foldl_cons]
 
+/-- Only the concatenation of consecutive `characters` events matters, anywhere in a stream. -/
+theorem feed_pieces_irrel (lk : Lookup) (h : H) (pre post : List Ev) (p q : List Str)
+    (hp : p.flatten = q.flatten) :
+    feed lk h (pre ++ (p.map .chars ++ post)) = feed lk h (pre ++ (q.map .chars ++ post)) := by
+  rw [feed_append, feed_append]
+  cases feed lk h pre with
+  | ok h' => simp only [feed_chars, hp]
+  | noFilter => rfl
+  | unknownId => rfl
+
 /-- With a filter known for the message-id, `startElement` never bails out. -/
 theorem startElement_filter_ok (f : FT) (h : H) (t : Str) (a : List (Str × Str)) :
     ∃ h', startElement (.filter f) h t a = .ok h' := by
